@@ -143,6 +143,18 @@ func (ex *Exec) lockEnv(fr *Frame, ls *lockSpec, obj Val) *Env {
 
 func (ex *Exec) lockAcquired(fr *Frame, ins ssa.Instruction, ls *lockSpec, obj Val) {
 	ts := ex.ts
+	if ex.contract != nil {
+		if _, seq := ex.contract.Options["sequential"]; seq {
+			// the contract describes the function run on its own (no interference between critical sections);
+			// the lockset and the guarded-by discipline are still tracked
+			ex.note("sequential view in " + relName(ex.root) + ": guarded state is not forgotten at Lock (functional contract of one call in isolation)")
+			env := ex.lockEnv(fr, ls, obj)
+			for _, inv := range ls.c.Invariants {
+				ex.assume(ex.evalBool(inv.E, env))
+			}
+			return
+		}
+	}
 	ref := ex.objRef(obj)
 	// forget guarded memory
 	for n := range ex.regionSorts {
